@@ -112,6 +112,7 @@ class Engine:
         self.const_frames = {}
         self.const_cache = {}
         self.stubs = {}  # body name -> python fn(engine, st, args) -> [(st, val)]
+        self.ext_stubs = []  # (compiled regex over the call-site callee text, fn): environment stubs for std / foreign functions
         self.stats = {"paths": 0, "feas_queries": 0, "feas_time": 0.0, "calls": 0, "stmts": 0, "merges": 0, "bodies": set(), "intrinsics": set()}
         self.INF = z3.Real("INF") if mode == "real" else float("inf")
         self.closure_index = None
@@ -887,6 +888,13 @@ class Engine:
             return a
         if kind.startswith("PointerCoercion") or kind.startswith("PtrToPtr") or kind.startswith("Transmute") and isinstance(a, Ptr):
             return a
+        if kind.startswith("Transmute") and isinstance(a, Struct) and a.ty in ("NonNull", "Unique") and a.fields:
+            # Box<T> internals: `(box.0: Unique<T>).0: NonNull<T>` cast to a raw pointer
+            inner = a.fields[0]
+            while isinstance(inner, Struct) and inner.ty in ("NonNull", "Unique"):
+                inner = inner.fields[0]
+            if isinstance(inner, Ptr):
+                return inner
         raise Unsupported(f"cast {kind} to {ty}")
 
     # ------------------------------------------------------------ merging
@@ -1063,6 +1071,12 @@ class Engine:
             f = args[0]
             tup = args[1]
             return self.call_closure(st, f, list(tup.fields) if isinstance(tup, Struct) else [tup])
+        for (rx, fn) in self.ext_stubs:
+            if rx.search(callee):
+                r = fn(self, st, args)
+                if r is not None:
+                    self.stats["stub_calls"] = self.stats.get("stub_calls", 0) + 1
+                    return [Outcome(s_, "ret", v_) for (s_, v_) in r]
         r = self.intr.dispatch(self, st, body, callee, args)
         if r is not None:
             return r
